@@ -174,6 +174,9 @@ type tkAccess struct {
 	serErr              error
 	pProofs, pMint      string // panic messages
 	pAmount, pSerialize string
+	jsonOut             []byte // json.MarshalIndent(token) as `nutw decode` does (custom MarshalJSON methods)
+	jsonErr             error
+	pJSON               string
 }
 
 // tkAccessors calls EVERY accessor of the Token interface, each under its own recover.
@@ -183,7 +186,67 @@ func tkAccessors(t cashu.Token) tkAccess {
 	a.pMint = tkRecover(func() { a.mint = t.Mint() })
 	a.pAmount = tkRecover(func() { a.amount = t.Amount() })
 	a.pSerialize = tkRecover(func() { a.ser, a.serErr = t.Serialize() })
+	a.pJSON = tkRecover(func() { a.jsonOut, a.jsonErr = json.MarshalIndent(t, "", "  ") })
 	return a
+}
+
+// tkCheckJSONView: model-free consistency of the custom MarshalJSON methods with Proofs(): the JSON view of a V4
+// token shows every byte field as the same hex text that Proofs() reports; the JSON view of a V3 token unmarshals
+// back to the same token.  Returns "" when consistent.
+func tkCheckJSONView(t cashu.Token, a tkAccess) string {
+	if a.pJSON != "" || a.pProofs != "" {
+		return ""
+	}
+	if a.jsonErr != nil {
+		return "json.MarshalIndent failed: " + a.jsonErr.Error()
+	}
+	switch x := t.(type) {
+	case *cashu.TokenV3:
+		var back cashu.TokenV3
+		if err := json.Unmarshal(a.jsonOut, &back); err != nil {
+			return "JSON view of a V3 token does not unmarshal: " + err.Error()
+		}
+		if Render(tkV3Sx(back)) != Render(tkV3Sx(*x)) {
+			return "JSON view of a V3 token unmarshals to a different token"
+		}
+	case *cashu.TokenV4:
+		var view struct {
+			T []struct {
+				I string `json:"i"`
+				P []struct {
+					A uint64 `json:"a"`
+					S string `json:"s"`
+					C string `json:"c"`
+					W string `json:"w"`
+					D *struct {
+						E string `json:"e"`
+						S string `json:"s"`
+						R string `json:"r"`
+					} `json:"d"`
+				} `json:"p"`
+			} `json:"t"`
+			D string `json:"d"`
+			M string `json:"m"`
+			U string `json:"u"`
+		}
+		if err := json.Unmarshal(a.jsonOut, &view); err != nil {
+			return "JSON view of a V4 token does not unmarshal: " + err.Error()
+		}
+		var flat cashu.Proofs
+		for _, g := range view.T {
+			for _, p := range g.P {
+				q := cashu.Proof{Amount: p.A, Id: g.I, Secret: p.S, C: p.C, Witness: p.W}
+				if p.D != nil {
+					q.DLEQ = &cashu.DLEQProof{E: p.D.E, S: p.D.S, R: p.D.R}
+				}
+				flat = append(flat, q)
+			}
+		}
+		if !tkProofsEq(flat, a.proofs) || view.M != x.MintURL || view.U != x.Unit || view.D != x.Memo {
+			return "JSON view of a V4 token (custom MarshalJSON) differs from Proofs()/Mint()"
+		}
+	}
+	return ""
 }
 
 // tkIndexPanic parses "runtime error: index out of range [I] with length L".
@@ -800,6 +863,10 @@ func tkSerializeDecode(c *Ctx, b *tkBatch, format string, tok cashu.Token, tc tk
 	tkPanicMonitor(c, "Mint", acc.pMint, dec, ser)
 	tkPanicMonitor(c, "Amount", acc.pAmount, dec, ser)
 	tkPanicMonitor(c, "Serialize", acc.pSerialize, dec, ser)
+	tkPanicMonitor(c, "MarshalJSON", acc.pJSON, dec, ser)
+	if what := tkCheckJSONView(dec, acc); what != "" {
+		c.MonitorFail("C14", "C14/json-view/"+format, what, replay)
+	}
 	b.add("access(decoded)", L(A("token.access"), tkTokenSx(dec)), acc.sx(), replay)
 
 	// ---- model-free monitor: the property statement on the observed values
@@ -1198,6 +1265,10 @@ func tkFuzzOne(c *Ctx, b *tkBatch, family string, s string) {
 		tkPanicMonitor(c, "Mint", acc.pMint, dec, s)
 		tkPanicMonitor(c, "Amount", acc.pAmount, dec, s)
 		tkPanicMonitor(c, "Serialize", acc.pSerialize, dec, s)
+		tkPanicMonitor(c, "MarshalJSON", acc.pJSON, dec, s)
+		if what := tkCheckJSONView(dec, acc); what != "" {
+			c.MonitorFail("C14", "C14/json-view/fuzz", what, replay)
+		}
 		if tkValidUTF8Token(dec) {
 			b.add("access(fuzz)", L(A("token.access"), tkTokenSx(dec)), acc.sx(), replay)
 		}
@@ -1394,7 +1465,7 @@ func runTokenFuzz(c *Ctx) {
 	// (2) sampled strings of length 4..8 over the alphabet; also every proper prefix of both version prefixes + 0..3 symbols
 	nSample := 6000
 	if c.Thorough {
-		nSample = 300000
+		nSample = 150000
 	}
 	for i := 0; i < nSample; i++ {
 		l := 4 + r.Intn(5)
@@ -1458,7 +1529,7 @@ func runTokenFuzz(c *Ctx) {
 	maxProofs := 3
 	mutPerTok := 300
 	if c.Thorough {
-		nTok = 200
+		nTok = 120
 		maxProofs = 12
 		mutPerTok = 2000
 	}
